@@ -23,10 +23,14 @@ pub fn run(kind: &str) -> i32 {
             }
         }
         "tsan" => {
+            // all four start together (a thread that has finished before the next one starts gives the detector little to see)
+            let gate = std::sync::Arc::new(std::sync::Barrier::new(4));
             let t: Vec<_> = (0..4)
                 .map(|_| {
-                    std::thread::spawn(|| {
-                        for _ in 0..10_000 {
+                    let gate = gate.clone();
+                    std::thread::spawn(move || {
+                        gate.wait();
+                        for _ in 0..200_000 {
                             unsafe {
                                 RACY = std::ptr::read_volatile(&RACY) + 1;
                             }
